@@ -297,6 +297,238 @@ fn class_of(r: &RecModel) -> Option<Enc> {
 }
 
 // ---------------------------------------------------------------------------------------------
+// libFuzzer decoder
+//
+// `case_from_bytes` maps fuzz bytes onto the `Case` domain of `case_strategy(None)` (section
+// `tables`). Record models are built from raw runs / Big5 items by the strategy's own functions
+// (`build_map`, `big5_map`) with raw values in the strategy's ranges, and go through the same
+// post-processing (lead-byte clean-up of the format 2 models, one record per (platform,
+// encoding)), so every decoded case is one the strategy can produce. Selectors keep roughly the
+// strategy's weights. Tape: usFirstCharIndex, record count, the records, the probes, then the
+// layout words (two bytes each: the 16-bit value in both halves of the word, because
+// `Chooser::pick` reads the high bits and the idDelta candidates read the low ones). An exhausted
+// input yields zeros and collections stop at their minimum size, so every byte string is a case.
+
+use arbitrary::Unstructured;
+
+type UResult<T> = arbitrary::Result<T>;
+
+/// `run_strategy()`. `has_prev`: a run of kind 6/7 then repeats the previous run's glyph pattern,
+/// and only `sel` / `rnd` of this one are read by `build_map`.
+fn u_run(u: &mut Unstructured<'_>, has_prev: bool) -> UResult<Run> {
+    // head: bits 0-2 kind, bits 3-4 length class (3 : 2 : 1 ~ 2 : 1 : 1), bits 5-7 first-glyph class
+    let h: u8 = u.arbitrary()?;
+    let kind = h & 7;
+    let sel: u8 = u.arbitrary()?;
+    let rnd: u32 = u.arbitrary()?;
+    if has_prev && kind >= 6 {
+        return Ok(Run { sel, rnd, len: 1, gid0: 0, kind, holes: 0 });
+    }
+    let len = match (h >> 3) & 3 {
+        0 | 1 => u.int_in_range(1u8..=5)?,
+        2 => u.int_in_range(1u8..=39)?,
+        _ => u.int_in_range(40u8..=119)?,
+    };
+    let gid0 = match h >> 5 {
+        5 => 0u16,
+        6 => 0xFFF8 + (u.arbitrary::<u8>()? & 7) as u16,
+        7 => 1 + (u.arbitrary::<u8>()? % 3) as u16,
+        _ => u.arbitrary::<u16>()?,
+    };
+    // `holes` is read only by the kinds (mod 6) 3..=5
+    let holes = if kind % 6 >= 3 { u.arbitrary::<u32>()? } else { 0 };
+    Ok(Run { sel, rnd, len, gid0, kind, holes })
+}
+
+/// `proptest::collection::vec(run_strategy(), 0..7)`
+fn u_runs(u: &mut Unstructured<'_>) -> UResult<Vec<Run>> {
+    let n = u.int_in_range(0usize..=6)?;
+    let mut v = Vec::with_capacity(n);
+    for _ in 0..n {
+        if u.is_empty() {
+            break;
+        }
+        let has_prev = !v.is_empty();
+        v.push(u_run(u, has_prev)?);
+    }
+    Ok(v)
+}
+
+/// `vec((any::<u8>(), any::<u32>(), any::<u16>()), 0..40)`
+fn u_big5_items(u: &mut Unstructured<'_>) -> UResult<Vec<(u8, u32, u16)>> {
+    let n = u.int_in_range(0usize..=39)?;
+    let mut v = Vec::with_capacity(n);
+    for _ in 0..n {
+        if u.is_empty() {
+            break;
+        }
+        v.push((u.arbitrary::<u8>()?, u.arbitrary::<u32>()?, u.arbitrary::<u16>()?));
+    }
+    Ok(v)
+}
+
+/// the arms of `rec_strategy()`, each repeated by its weight (37 in all)
+const REC_KIND: [u8; 37] = [
+    0, 0, 0, 1, 1, 1, 1, 2, 2, 3, 4, 4, 5, 5, 6, 6, 7, 8, 8, 8, 8, 9, 9, 9, 10, 10, 11, 11, 11, 12, 12, 13, 14, 15, 16, 17, 18,
+];
+const UNI_ENC: [u16; 5] = [0, 1, 2, 3, 6];
+
+/// `rec_strategy()`
+fn u_rec(u: &mut Unstructured<'_>) -> UResult<RecModel> {
+    let mk = |p: u16, e: u16, f: u16, map: BTreeMap<u32, u16>| RecModel { platform: p, encoding: e, format: f, map, extra_leads: BTreeSet::new() };
+    let kind = REC_KIND[u.int_in_range(0usize..=36)?];
+    Ok(match kind {
+        0 => mk(3, 10, 12, build_map(&u_runs(u)?, Domain::Full, 0xFFFF, false)),
+        1 => mk(3, 1, 4, build_map(&u_runs(u)?, Domain::Bmp, 0xFFFF, false)),
+        2 => mk(0, 4, 12, build_map(&u_runs(u)?, Domain::Full, 0xFFFF, false)),
+        3 => mk(0, 4, 4, build_map(&u_runs(u)?, Domain::Bmp, 0xFFFF, false)),
+        4..=7 => {
+            let e = *u.choose(&UNI_ENC)?;
+            let r = u_runs(u)?;
+            match kind {
+                4 => mk(0, e, 4, build_map(&r, Domain::Bmp, 0xFFFF, false)),
+                5 => mk(0, e, 6, build_map(&r, Domain::Bmp, 0xFFFF, true)),
+                6 => mk(0, e, 10, build_map(&r, Domain::Full, 0xFFFF, true)),
+                _ => mk(0, e, 12, build_map(&r, Domain::Full, 0xFFFF, false)),
+            }
+        }
+        8 => mk(3, 0, 4, build_map(&u_runs(u)?, Domain::Bmp, 0xFFFF, false)),
+        9 => mk(1, 0, 0, build_map(&u_runs(u)?, Domain::Byte, 0xFF, false)),
+        10 => mk(1, 0, 6, build_map(&u_runs(u)?, Domain::Byte, 0xFFFF, true)),
+        11 => {
+            let l: u8 = u.arbitrary()?;
+            let items = u_big5_items(u)?;
+            let mut m = mk(3, 4, 2, big5_map(&items));
+            match l % 4 {
+                0 | 1 => m.extra_leads = (0x81u8..=0xFE).collect(),
+                2 => m.extra_leads = (0xA1u8..=0xC6).collect(),
+                _ => {}
+            }
+            let leads = enc::format2_leads(&m.map, &m.extra_leads);
+            m.map.retain(|c, _| *c >= 0x100 || !leads.contains(&(*c as u8)));
+            m
+        }
+        12 => mk(3, 4, 4, big5_map(&u_big5_items(u)?)),
+        13 => {
+            let mut m = build_map(&u_runs(u)?, Domain::Bmp, 0xFFFF, false);
+            let leads: BTreeSet<u32> = m.keys().filter(|c| **c >= 0x100).map(|c| *c >> 8).collect();
+            for l in leads.iter().filter(|l| **l % 2 == 0) {
+                m.entry(*l << 8 | *l).or_insert((*l as u16).wrapping_mul(257) | 1);
+            }
+            m.retain(|c, _| *c >= 0x100 || !leads.contains(c));
+            mk(3, 2, 2, m)
+        }
+        14 => mk(3, 2, 4, build_map(&u_runs(u)?, Domain::Bmp, 0xFFFF, false)),
+        15 => mk(1, 1, 0, build_map(&u_runs(u)?, Domain::Byte, 0xFF, false)),
+        16 => mk(3, 5, 4, build_map(&u_runs(u)?, Domain::Bmp, 0xFFFF, false)),
+        17 => mk(4, 0, 0, build_map(&u_runs(u)?, Domain::Byte, 0xFF, false)),
+        _ => mk(0, 5, 14, BTreeMap::new()),
+    })
+}
+
+/// `first_char_strategy()`
+fn u_first_char(u: &mut Unstructured<'_>) -> UResult<Option<u16>> {
+    const OTHER: [u16; 6] = [0x21, 0x41, 0x100, 0xF000, 0xF021, 0xFFFF];
+    Ok(match u.int_in_range(0u8..=18)? {
+        0..=2 => None,
+        3..=7 => Some(0x20),
+        8..=14 => Some(0xF020),
+        15 | 16 => Some(*u.choose(&OTHER)?),
+        _ => Some(u.int_in_range(0x20u16..=0xFFFF)?),
+    })
+}
+
+/// Decode libFuzzer bytes into a case of the `tables` section (structure-aware, total).
+pub fn case_from_bytes(data: &[u8]) -> arbitrary::Result<Case> {
+    let mut u = Unstructured::new(data);
+    let u = &mut u;
+    let first_char = u_first_char(u)?;
+    let nrecs = u.int_in_range(1usize..=4)?;
+    let mut recs = Vec::with_capacity(nrecs);
+    for k in 0..nrecs {
+        if k >= 1 && u.is_empty() {
+            break; // 1..=4 records
+        }
+        recs.push(u_rec(u)?);
+    }
+    // probes: any u32; the head byte chooses how many bytes are read
+    let nprobes = u.int_in_range(0usize..=23)?;
+    let mut probes = Vec::with_capacity(nprobes);
+    for _ in 0..nprobes {
+        if u.is_empty() {
+            break;
+        }
+        probes.push(match u.arbitrary::<u8>()? & 3 {
+            0 | 1 => u.arbitrary::<u16>()? as u32,
+            2 => u.int_in_range(0u32..=0xFF_FFFF)?,
+            _ => u.arbitrary::<u32>()?,
+        });
+    }
+    // layout: the rest of the input, at most 79 words
+    let mut layout = Vec::new();
+    while layout.len() < 79 && !u.is_empty() {
+        let v = u.arbitrary::<u16>()? as u32;
+        layout.push(v << 16 | v);
+    }
+    // the strategy's post-processing: one record per (platform, encoding)
+    let mut seen = BTreeSet::new();
+    recs.retain(|r| seen.insert((r.platform, r.encoding)));
+    let case = Case { recs, first_char, layout, probes };
+    if let Some(what) = domain_violation(&case) {
+        panic!("C06 case_from_bytes left the domain of case_strategy: {}", what);
+    }
+    Ok(case)
+}
+
+/// The invariants of `case_strategy(None)` that can be stated on the finished case.
+fn domain_violation(c: &Case) -> Option<&'static str> {
+    if !(1..=4).contains(&c.recs.len()) {
+        return Some("record count");
+    }
+    let mut seen = BTreeSet::new();
+    for r in &c.recs {
+        if !seen.insert((r.platform, r.encoding)) {
+            return Some("duplicate (platform, encoding)");
+        }
+        let max_code = match r.format {
+            0 => 0xFF,
+            2 | 4 | 6 => 0xFFFF,
+            10 | 12 => 0x10FFFF,
+            14 => 0,
+            _ => return Some("format"),
+        };
+        if r.map.keys().any(|c| *c > max_code) || r.map.values().any(|g| *g == 0) {
+            return Some("map entry");
+        }
+        if r.format == 14 && !r.map.is_empty() {
+            return Some("format 14 with a map");
+        }
+        if r.format == 0 && r.map.values().any(|g| *g > 0xFF) {
+            return Some("format 0 glyph");
+        }
+        if r.format == 2 {
+            let leads = enc::format2_leads(&r.map, &r.extra_leads);
+            if r.map.keys().any(|c| *c < 0x100 && leads.contains(&(*c as u8))) {
+                return Some("format 2 single byte code that is a lead byte");
+            }
+        } else if !r.extra_leads.is_empty() {
+            return Some("extra_leads");
+        }
+        if matches!(r.format, 6 | 10) {
+            if let (Some(lo), Some(hi)) = (r.map.keys().next(), r.map.keys().last()) {
+                if hi - lo > 300 + 119 {
+                    return Some("trimmed-array window");
+                }
+            }
+        }
+    }
+    if c.first_char.map_or(false, |f| f < 0x20) || c.layout.len() > 79 || c.probes.len() > 23 {
+        return Some("first_char / layout / probes");
+    }
+    None
+}
+
+// ---------------------------------------------------------------------------------------------
 // encoding the case
 
 pub struct Built {
